@@ -79,6 +79,7 @@ def _work(args):
     }
     if keep:
         out["history"] = res.get("history", [])[:30]
+        out["case"] = case
     return out
 
 
@@ -352,8 +353,8 @@ def run_check(mod, prop, seed, args, t0):
             agg.add(r["run"], {"history": [None] * r["n_ops"], "stats": r["stats"], "states": r["states"],
                                "violations": r["violations"], "timeout": r["timeout"], "digest": r["digest"]},
                     keep_sample=False)
-            if "history" in r and len(agg.samples) < 4:
-                agg.samples.append({"run": r["run"], "history": r["history"]})
+            if "history" in r and len(agg.samples) < 3:
+                agg.samples.append({"run": r["run"], "case": r.get("case"), "history_first_30_events": r["history"]})
             all_runs.append((r["run"], r["digest"], r["outcome_digest"]))
 
     if tier == "quick":
